@@ -111,7 +111,7 @@ Proof. vm_compute. repeat split. Qed.
    typed slice as an array).  For every numeric implementation that is exact on the numbers involved - the interface of
    C13 ([exact_iface]) plus equality, the integer test, the conversions back to integers and the float32 range
    ([carrier_iface]) - the verdict on the typed value is the declarative reading of the value it carries: integers strictly
-   inside +-2^53 and inside their kind; multipleOf on an integer carrier with a fractional factor (signed kinds), with an
+   inside +-2^53 and inside their kind; multipleOf on an integer carrier with a fractional factor, with an
    integral factor that is <= 0 or divides the value, or with any integral factor when the implementation's divisibility test
    is exact on +-2^26 ([mult_iface], asked for inside [tfits]);
    arrays holding typed values without enum and uniqueItems at that level (reflect.DeepEqual tells the carriers apart:
@@ -173,6 +173,7 @@ Proof.
   - assert (E : f = g) by (unfold Qeq in *; simpl in *; lia). subst f. split.
     + intros Hg. apply Z.leb_le in Hg. rewrite Hg. reflexivity.
     + intros Hg Hd. assert (E : (g <=? 0) = false) by (apply Z.leb_gt; exact Hg). rewrite E, Hd. reflexivity.
+  - match goal with H : (_ <=? 0) = true |- _ => rewrite H end. reflexivity.
   - assert (E : f = g) by (unfold Qeq in *; simpl in *; lia). subst f. reflexivity.
 Qed.
 
